@@ -72,9 +72,9 @@ func runProg(w *world, progs [][]instr) {
 				case iSend:
 					vsched.Send(w.ch, tid)
 				case iRecv:
-					switch vsched.Select(true, vsched.RecvCase(w.ch)) {
+					switch sel := vsched.Select(true, vsched.RecvCase(w.ch)); sel.I {
 					case 0:
-						v := <-w.ch
+						v := sel.V.(int)
 						w.out = append(w.out, fmt.Sprintf("t%d:rcv=%d", tid, v))
 					default:
 						w.out = append(w.out, fmt.Sprintf("t%d:rcv=none", tid))
